@@ -119,11 +119,11 @@ macro_rules! unescape_harness {
         }
     };
 }
-//@harness name=unescape_2 tier=quick timeout=600 unwind=9 desc="string-literal escape decoding equals the escape set of the Jsonnet grammar (quote, apostrophe, backslash, slash, b f n r t, uXXXX); everything else after a backslash is rejected" bounds="every ASCII literal body of exactly 2 bytes"
+//@harness name=unescape_2 tier=quick timeout=1500 unwind=9 desc="string-literal escape decoding equals the escape set of the Jsonnet grammar (quote, apostrophe, backslash, slash, b f n r t, uXXXX); everything else after a backslash is rejected" bounds="every ASCII literal body of exactly 2 bytes"
 unescape_harness!(unescape_2, 2);
-//@harness name=unescape_3 tier=quick timeout=600 unwind=9 desc="same" bounds="every ASCII literal body of exactly 3 bytes"
+//@harness name=unescape_3 tier=quick timeout=1500 unwind=9 desc="same" bounds="every ASCII literal body of exactly 3 bytes"
 unescape_harness!(unescape_3, 3);
-//@harness name=unescape_6 tier=quick timeout=900 unwind=9 desc="same (long enough for one uXXXX escape)" bounds="every ASCII literal body of exactly 6 bytes"
+//@harness name=unescape_6 tier=quick timeout=1500 unwind=9 desc="same (long enough for one uXXXX escape)" bounds="every ASCII literal body of exactly 6 bytes"
 unescape_harness!(unescape_6, 6);
 
 //@harness tier=quick timeout=600 desc="the xHH escape extension, where accepted, denotes the code point 0xHH" bounds="every pair of hexadecimal digits"
